@@ -145,10 +145,26 @@ def property_anchors(prop):
     return names & known
 
 
+REQUESTED_MISSING = set()   # functions of the reference tree that a rule asked for during this run and that are not defined now
+_KNOWN = None
+
+
+def note_requested(cname, found):
+    """called by Module.fn / Module.fns / Matcher call patterns: a rule needs function cname"""
+    global _KNOWN
+    if found:
+        return
+    if _KNOWN is None:
+        here = os.path.dirname(os.path.abspath(__file__))
+        _KNOWN = set(open(os.path.join(here, "known_functions.txt")).read().split())
+    if cname in _KNOWN and CURRENT_DEFINED is not None and cname not in CURRENT_DEFINED:
+        REQUESTED_MISSING.add(cname)
+
+
 def vanished_anchors(prop):
-    if CURRENT_DEFINED is None:
-        return []
-    return sorted(property_anchors(prop) - CURRENT_DEFINED)
+    """functions of the reference tree that the rules evaluated in this run asked for by name and that no longer exist (a name that only
+    sits in an optional table - read-like callees, listed exceptions - and was never needed does not count)"""
+    return sorted(REQUESTED_MISSING)
 
 
 class Views:
